@@ -345,9 +345,24 @@ def chkOutputNames (nd : NodeD) : Option BuildErr :=
     else if isKeyword o then some (.keywordOutputName nd.name o)
     else none
 
-/-- `_validate_valid_identifiers`: the NAME of a graph node is exempt (it follows the laxer graph-name
-rule), its OUTPUT names are validated like any other output -/
+/-- the separators of hierarchical node ids (`GraphNode._RESERVED_CHARS`) -/
+def hasPathSep (s : String) : Bool := s.toList.contains '.' || s.toList.contains '/'
+
+/-- `_validate_valid_identifiers`: the NAME of a graph node follows the laxer graph-name rule (no path
+separator; repair "reserved characters in a nested-graph node name are rejected at construction":
+`as_node(name=…)` refused them, `with_name(…)` did not), its OUTPUT names are validated like any other output -/
 def chkIdentifiers (b : BuildInput) : Option BuildErr :=
+  b.nodes.findSome? fun nd =>
+    if nd.kind == .graph then
+      (if hasPathSep nd.name then some (.invalidNodeName nd.name) else chkOutputNames nd)
+    else if !isIdentifier nd.name then some (.invalidNodeName nd.name)
+    else if isKeyword nd.name then some (.keywordNodeName nd.name)
+    else chkOutputNames nd
+
+/-- `_validate_valid_identifiers` before the repair "reserved characters in a nested-graph node name are
+rejected at construction": the name of a graph node was not looked at (kept for the negative witness
+`HG.C19s.graph_node_path_name_witness`; not part of `checks`) -/
+def chkIdentifiersAnyGraphName (b : BuildInput) : Option BuildErr :=
   b.nodes.findSome? fun nd =>
     if nd.kind == .graph then chkOutputNames nd
     else if !isIdentifier nd.name then some (.invalidNodeName nd.name)
